@@ -17,6 +17,8 @@ DISCARDERS = {
     "std::result::Result::<T, E>::unwrap_or_default": "unwrap_or_default()",
     "std::result::Result::<T, E>::or": "or()",
     "std::result::Result::<T, E>::is_ok_and": "is_ok_and()",
+    # the Err side is replaced by a default: `r.map_or(fallback, f)` never looks at the error
+    "std::result::Result::<T, E>::map_or": "map_or()",
 }
 
 
@@ -256,7 +258,7 @@ def _reviewed():
 _RESULT_VIEWS = ("std::result::Result::<T, E>::as_ref", "std::result::Result::<T, E>::as_mut", "std::result::Result::<T, E>::as_deref", "std::result::Result::<T, E>::as_deref_mut")
 
 
-@rule("R12.1", 40, "no fallible result is discarded: every Result produced by a call is propagated, matched on, returned or handed on (reviewed exceptions enumerated)", ["C12", "C11"])
+@rule("R12.1", 40, "no fallible result is discarded: every Result produced by a call is propagated, matched on, returned or handed on (reviewed exceptions enumerated)", ["C12", "C11", "C13"])
 def r12_1(ctx):
     reviewed = _reviewed()
     budget = {}
@@ -658,7 +660,7 @@ def r12_4(ctx):
     ctx.ob("eof-error-sites", True, "lib", f"{n} synthetic UnexpectedEof error site(s) examined", trivial=n == 0)
 
 
-@rule("R16.5", 1, "no result of a write or flush is thrown away on the way to standard output: a failing write that is dropped (`.ok()`, `let _ =`, an unread match) would let xt exit 0 with output missing and nothing on stderr", ["C16", "C13"])
+@rule("R16.5", 1, "no result of a write or flush is thrown away on the way to standard output: a failing write that is dropped (`.ok()`, `let _ =`, an unread match) would let xt exit 0 with output missing and nothing on stderr", ["C16"])
 def r16_5(ctx):
     # R12.1's discard classifier, restricted to io::Write methods (reads and parses are C12's business, not C16's)
     from engine import Ctx
